@@ -1,6 +1,8 @@
 package pc15
 
 import (
+	"fmt"
+	"os"
 	"testing"
 
 	"verifharness/cli"
@@ -15,6 +17,9 @@ func c15Prop(c srig.Case) ev.Outcome {
 	obs, err := srig.Run(c)
 	if err != nil {
 		return ev.Outcome{Err: err}
+	}
+	if os.Getenv("VERIF_DEBUG") != "" {
+		fmt.Println("DEBUG query:", c.SQL, "\nDEBUG outs:", mon.FormatOuts(obs.Outs))
 	}
 	rows, err := srig.Rows(obs.Outs, obs.Res.Cols)
 	if err != nil {
